@@ -35,13 +35,23 @@ type Conn struct {
 	Writes int
 	local  Addr
 	remote Addr
+	// Fd / Cred: what SO_PEERCRED reports for this unix-domain connection (nil: not available)
+	Fd   uintptr
+	Cred *syscall.Ucred
 	// link: the other end when two mangos sockets talk to each other over the harness network
 	// (what is written here is read there, in the chunks it was written in)
 	link *Conn
 }
 
+// NextCred: peer credentials given to the next connection created (then cleared)
+var NextCred *syscall.Ucred
+var nextFd uintptr = 100
+
 func NewConn(name string) *Conn {
-	return &Conn{Name: name, inq: make(chan []byte, 64), closeq: make(chan struct{}), local: "local:" + Addr(name), remote: "remote:" + Addr(name)}
+	nextFd++
+	cr := NextCred
+	NextCred = nil
+	return &Conn{Fd: nextFd, Cred: cr, Name: name, inq: make(chan []byte, 64), closeq: make(chan struct{}), local: "local:" + Addr(name), remote: "remote:" + Addr(name)}
 }
 
 func (c *Conn) Read(b []byte) (int, error) {
@@ -356,3 +366,40 @@ func TCPListen(network string, laddr *net.TCPAddr) (*net.TCPListener, error) {
 func TCPAccept(h *net.TCPListener) (net.Conn, error) { return TCPListeners[h].Accept() }
 func TCPListenerClose(h *net.TCPListener) error      { return TCPListeners[h].Close() }
 func TCPListenerAddr(h *net.TCPListener) net.Addr    { return TCPListeners[h].tcp }
+
+
+// ---- peer credentials of unix-domain connections (SO_PEERCRED): (*net.UnixConn).SyscallConn and
+// syscall.GetsockoptUcred are routed here; the values are whatever the harness attached to the connection.
+
+type RawConn struct{ c *Conn }
+
+func (r *RawConn) Control(f func(fd uintptr)) error {
+	if r.c.Closed {
+		return errClosed
+	}
+	f(r.c.Fd)
+	return nil
+}
+func (r *RawConn) Read(f func(fd uintptr) bool) error  { return errors.New("vnet: raw read not modelled") }
+func (r *RawConn) Write(f func(fd uintptr) bool) error { return errors.New("vnet: raw write not modelled") }
+
+func UnixSyscallConn(c *net.UnixConn) (syscall.RawConn, error) {
+	vc := UnixConns[c]
+	if vc == nil || vc.Cred == nil {
+		return nil, errors.New("vnet: no raw connection")
+	}
+	return &RawConn{c: vc}, nil
+}
+
+func GetsockoptUcred(fd, level, opt int) (*syscall.Ucred, error) {
+	if level != syscall.SOL_SOCKET || opt != syscall.SO_PEERCRED {
+		return nil, errors.New("vnet: unsupported socket option")
+	}
+	for _, vc := range UnixConns {
+		if vc.Fd == uintptr(fd) && vc.Cred != nil {
+			u := *vc.Cred
+			return &u, nil
+		}
+	}
+	return nil, errors.New("vnet: bad file descriptor")
+}
